@@ -43,6 +43,11 @@ pub struct Scenario {
     pub merge: Vec<u8>,
     /// (position in the merged sequence, stray)
     pub strays: Vec<(u16, Stray)>,
+    /// bit t: train t's first fragment goes out with a re-use label whenever the start/complete
+    /// packet preceding it in the final sequence carried the same label (what a sender with
+    /// label re-use enabled does)
+    #[serde(default)]
+    pub reuse_mask: u8,
 }
 
 #[derive(Clone, Debug)]
@@ -76,9 +81,11 @@ fn check_scenario(sc: &Scenario, st: &mut Stats) -> Result<(), String> {
     // build trains
     let pdus: Vec<Vec<u8>> = sc.trains.iter().map(|t| t.pdu.bytes()).collect();
     let mut pkts: Vec<Vec<Vec<u8>>> = vec![];
+    let mut pkts_reuse: Vec<Vec<Vec<u8>>> = vec![];
     for (t, p) in sc.trains.iter().zip(pdus.iter()) {
         let cuts: Vec<usize> = t.cuts.iter().map(|c| *c as usize).collect();
         pkts.push(ref_train(t.lab, t.ptype, t.id, p, &cuts));
+        pkts_reuse.push(ref_train(Lab::ReUse, t.ptype, t.id, p, &cuts));
     }
     // merged sequence
     let mut next = vec![0usize; sc.trains.len()];
@@ -159,6 +166,44 @@ fn check_scenario(sc: &Scenario, st: &mut Stats) -> Result<(), String> {
             seq.insert(at + j, it);
         }
         inserted += n;
+    }
+
+    // a sender with label re-use enabled: a tracked first fragment whose label equals the label in
+    // force goes out with a re-use label (and its whole train is the re-use variant: the CRC
+    // then covers no label bytes)
+    {
+        let mut eff: Option<Lab> = None;
+        let mut variant = vec![false; sc.trains.len()];
+        let mut idx = vec![0usize; sc.trains.len()];
+        let mut substituted = false;
+        for it in seq.iter_mut() {
+            match &it.role {
+                Role::Tracked { t, is_first, .. } => {
+                    let t = *t;
+                    let lab = sc.trains[t].lab;
+                    if *is_first {
+                        idx[t] = 0;
+                        let same_len = pkts_reuse[t].len() == pkts[t].len();
+                        variant[t] = same_len && sc.reuse_mask & (1 << t) != 0 && lab.is_addr() && eff == Some(lab);
+                        substituted |= variant[t];
+                        match lab {
+                            Lab::Six(_) | Lab::Three(_) => eff = Some(lab),
+                            Lab::Broadcast => eff = None,
+                            Lab::ReUse => {}
+                        }
+                    }
+                    if variant[t] {
+                        it.bytes = pkts_reuse[t][idx[t]].clone();
+                    }
+                    idx[t] += 1;
+                }
+                Role::Complete { lab, .. } => eff = if lab.is_addr() { Some(*lab) } else { None },
+                Role::StrayFirst { .. } => {}
+                Role::StrayEnd { lab, .. } => eff = Some(*lab),
+                Role::StrayPkt => {}
+            }
+        }
+        st.class_if(substituted, "first-fragment-with-re-use-label");
     }
 
     // reference slot model: slot -> (id, owner tag); tags 0..n are tracked trains, >= 100 stray trains
@@ -313,8 +358,11 @@ fn enum_table(t: Tier) -> &'static Vec<Scenario> {
                     .map(|(i, f)| TrainSpec { id: i as u8, lab: labs[i % 3], ptype: 0x0800 + i as u16, pdu: Pdu { len: 11 + 7 * i as u32 + 3 * *f as u32, seed: 50 + i as u32 }, cuts: (0..f - 1).map(|j| 2 + j as u16).collect() })
                     .collect();
                 let total: usize = cfg.iter().sum();
-                for merge in all_merges(cfg) {
-                    out.push(Scenario { k, trains: trains.clone(), merge: merge.clone(), strays: vec![] });
+                for (merge, same) in all_merges(cfg).into_iter().flat_map(|m| [(m.clone(), false), (m, true)]) {
+                    // second pass: all trains carry the same 6-byte label and go out with re-use labels where a sender would
+                    let trains: Vec<TrainSpec> = if same { trains.iter().map(|t| TrainSpec { lab: labs[0], ..t.clone() }).collect() } else { trains.clone() };
+                    let reuse_mask = if same { 0xFF } else { 0 };
+                    out.push(Scenario { k, trains: trains.clone(), merge: merge.clone(), strays: vec![], reuse_mask });
                     let mut kinds = vec![Stray::CompleteBroadcast, Stray::CompleteLabel, Stray::InterUnknown, Stray::EndUnknown];
                     for t in 0..cfg.len() as u8 {
                         kinds.extend([Stray::InterAlias(t), Stray::EndAlias(t), Stray::RestartSame(t), Stray::ClaimAlias(t)]);
@@ -323,7 +371,7 @@ fn enum_table(t: Tier) -> &'static Vec<Scenario> {
                         for pos in 0..=total {
                             // position encoded so that idx16 maps it back exactly
                             let p = (((pos as u32) << 16) / (total as u32 + 1) + 1).min(65535) as u16;
-                            out.push(Scenario { k, trains: trains.clone(), merge: merge.clone(), strays: vec![(p, s)] });
+                            out.push(Scenario { k, trains: trains.clone(), merge: merge.clone(), strays: vec![(p, s)], reuse_mask });
                         }
                     }
                 }
@@ -365,8 +413,8 @@ fn gen_strategy(t: Tier) -> BoxedStrategy<Scenario> {
         1 => (0u8..4).prop_map(Stray::RestartSame),
         1 => (0u8..4).prop_map(Stray::ClaimAlias),
     ];
-    bx((2u8..=8, prop::collection::vec(train, 2..=4), any::<[u8; 4]>(), prop::collection::vec((any::<u16>(), stray), 0..=6), any::<u64>())
-        .prop_flat_map(|(k, trains, idsel, strays, _)| {
+    bx((2u8..=8, prop::collection::vec(train, 2..=4), any::<[u8; 4]>(), prop::collection::vec((any::<u16>(), stray), 0..=6), any::<u8>())
+        .prop_flat_map(|(k, trains, idsel, strays, reuse_mask)| {
             let n = trains.len().min(k as usize);
             // ids with pairwise distinct residues modulo k: residue r_i distinct, id = r_i + k * m_i
             let mut residues: Vec<u8> = (0..k).collect();
@@ -392,9 +440,9 @@ fn gen_strategy(t: Tier) -> BoxedStrategy<Scenario> {
                     merge.push(i as u8);
                 }
             }
-            (Just(k), Just(specs), Just(merge).prop_shuffle(), Just(strays))
+            (Just(k), Just(specs), Just(merge).prop_shuffle(), Just(strays), Just(reuse_mask))
         })
-        .prop_map(|(k, trains, merge, strays)| Scenario { k, trains, merge, strays }))
+        .prop_map(|(k, trains, merge, strays, reuse_mask)| Scenario { k, trains, merge, strays, reuse_mask }))
 }
 
 pub fn property() -> Property {
@@ -410,7 +458,7 @@ pub fn property() -> Property {
                 exhaustive: |_| true,
                 check: check_enum,
                 describe: desc_enum,
-                required_classes: &["interleaved", "stray-aliases-open-slot", "first-fragment-preempts-open-train"],
+                required_classes: &["interleaved", "stray-aliases-open-slot", "first-fragment-preempts-open-train", "first-fragment-with-re-use-label"],
             }),
             Box::new(GenPart {
                 name: "random-interleavings",
